@@ -43,19 +43,7 @@ def r_C17fgh(root):
             out.append(Finding("C17", "C17.f", S, q, " ".join(ast.unparse((bad or lds[0]).ast).split())[:100], "a referenced file is loaded before the importing model is entered into the repository: an import cycle back to the importer re-reads and re-parses it, and the second copy replaces the first in the repository", witness="a imports b, b imports a (search_path provider, no global repository)"))
     # ---- C17.g (which repository a model gets in ImportURI.load_models) is decided by evaluation: C17.n, sa/rules/c17e.py
     tp = load(root, P)
-    # ---- C17.h
-    tm = load(root, MM); imf = find(tm, "TextXMetaModel.internal_model_from_file"); fm = sem.info(imf)
-    look = [n for n in own_nodes(imf) if isinstance(n, ast.Assign) and isinstance(n.value, ast.Subscript) and "all_models" in ast.unparse(n.value.value)]
-    if not look: raise AnalysisError("internal_model_from_file: cache lookup not found")
-    for a in look:
-        inst += 1; extra = []
-        for a_, p_ in fm.atoms_at(a):
-            u = a_.replace(" ", "")
-            if (u.startswith("hasattr(self,'_tx_model_repository')") and p_) or ("has_model(" in u and p_): continue
-            extra.append((u, p_))
-        ob("C17", "C17.h", MM, "TextXMetaModel.internal_model_from_file", " ".join(ast.unparse(a).split())[:80], not extra)
-        for u, p_ in extra:
-            out.append(Finding("C17", "C17.h", MM, "TextXMetaModel.internal_model_from_file", ("" if p_ else "not ") + u, "the global repository's cache is consulted only when %s%s: other loads re-read a file that is already cached, so the same file exists as two different models" % ("" if p_ else "not ", u), witness="two metamodels each with a global repository; the file is loaded directly first and then imported"))
+    # ---- C17.h (the cache is consulted for every load) is decided by evaluation: C17.o, sa/rules/cmeta.py r_internalload
     return inst, out
 def r_C01h(root):
     out = []; inst = 0
